@@ -16,7 +16,29 @@ CFG = dict(
     n={"quick": 5000, "thorough": 60000, "search": 3000},
     thorough_seeds=4,
     level="proof",
-    assumptions=[],
+    assumptions=[
+        "the broker is faithful: every data response is a run of consecutive units of the partition log that begins with the first unit whose last offset reaches the asked offset (FaithfulData); error / missing-block / throttled-empty responses carry no data",
+        "the log is well-formed (LogWF): per unit the record offsets ascend and lie in (previous unit's last offset, own last offset]; compaction gaps and empty batches allowed",
+        "Fetch.Max guard: partial-only data is never answered at fetchSize == Fetch.Max > 0 (holds when Fetch.Max = 0 or every unit fits into Fetch.Max, lemma fetch_max_guard); otherwise the code skips one offset (lemma too_large_skips_one)",
+        "isolation: ReadUncommitted or a log without transactional batches (ReadCommitted over transactional logs is C11)",
+        "offsets do not overflow int64 (model uses unbounded integers; bridge obligations carry the range hypotheses)",
+        "timestamps of v1 compressed sets: theorems hold for the code's rule; they coincide with Kafka's rule (wrapper attribute) only for TsConsistent logs - known finding legacy-v1-wrapper-logappend-timestamp-ignored",
+        "goroutine pipeline (dispatcher / responseFeeder / broker worker, slow-reader path, redispatch) is NOT modelled: observed end-to-end only (real Consumer against MockBroker, real time)"],
     trusted_base=[],
 )
-CFG["manifest"] = dict(text="", note="", technique="")
+CFG["manifest"] = dict(
+    text="Proof: Lean theorems over ALL well-formed partition logs (record batches, legacy v0/v1 messages and compressed wrappers with absolute / relative inner offsets, "
+         "control batches, compaction gaps), all start offsets and all histories of faithful fetch responses (errors, missing block, throttled-empty, data cut anywhere, "
+         "partial trailing data): the concatenation of what parseResponse hands over is exactly the visible records of the log with start <= offset < next offset, a prefix of "
+         "visibleFrom S, strictly increasing, each message a stored record unaltered (consume_prefix, delivered_is_stored); productive responses strictly advance, others keep the "
+         "offset, partial data doubles the fetch size up to Fetch.Max (consume_progress, partial_grows_fetch_size), enough productive responses deliver everything "
+         "(consume_complete, with the explicit Fetch.Max guard); chooseStartingOffset decision table (start_offset_choice). "
+         "Tie: loop-free fragments of consumer.go (chooseStartingOffset switch, fetch-size doubling block, offset arithmetic, len==0 bumps, v1 rebasing + timestamp rule) are "
+         "re-translated from /repo on every run and proved equal to the model (bridge); the loops and the decoder are tied by differential execution: generated logs x formats x "
+         "codecs x Kafka 0.8.2-2.8, real FetchResponse encode -> real decode -> real parseResponse vs the compiled model, plus property oracles on the real output and an end-to-end "
+         "stream (real Consumer against MockBroker with faults and a slow reader).",
+    note="Trusted: Lean kernel; translator tools/extract + GoSem.lean; harness/line protocol; the abstract view of the decoder (what FetchResponseBlock.decode keeps) is tied by "
+         "correspondence only. Modelled not verified: broker behaviour (FaithfulData hypothesis), int64 non-overflow. Not modelled: goroutine pipeline, real time "
+         "(MaxProcessingTime ticker), several partitions per broker - observed end-to-end only. Known finding: inner messages of a log-append v1 wrapper get the producer's timestamp.",
+    technique="Lean 4 proof (induction over logs / responses / histories, omega) + regenerated bridge obligations + differential correspondence + end-to-end observation",
+)
